@@ -106,7 +106,7 @@ package nsqd
 // ---- FIN ------------------------------------------------------------------------------------
 //@ func (p *protocolV2) FIN(client *clientV2, params [][]byte) ([]byte, error)
 //@   onreturn cmdHandled := cmdHandled + 1
-//@   props C02 C03 C09
+//@   props C02 C03 C09 C13
 //@   requires p != nil && p.nsqd != nil && client != nil
 //@   requires[subscribed-has-channel] hasChannel(client)
 //@   ensures[state-check] !old(consuming(client)) ==> fatalErr(result1, "E_INVALID") && finCalls == old(finCalls)
@@ -127,7 +127,7 @@ package nsqd
 //@ pred reqParsable(params [][]byte) := len(params) >= 3 && len(params[1]) == 16 && allDigits(params[2]) && decOf(params[2]) < 18446744073709551616
 //@ func (p *protocolV2) REQ(client *clientV2, params [][]byte) ([]byte, error)
 //@   onreturn cmdHandled := cmdHandled + 1
-//@   props C02 C03 C09 C04
+//@   props C02 C03 C09 C04 C13
 //@   requires p != nil && p.nsqd != nil && client != nil
 //@   requires[subscribed-has-channel] hasChannel(client)
 //@   ensures[state-check] !old(consuming(client)) ==> fatalErr(result1, "E_INVALID") && reqCalls == old(reqCalls)
